@@ -345,7 +345,10 @@ let ghost vx_mid = *self; proof { assert(self.entity_identifiers@ =~= vx_self0.i
                 self.entity_identifiers@ == vx_self0.ids() + entity_identifiers@.take(vx_i as int),
                 self.length == vx_self0.length && self.components == vx_mid.components && self.identifier == vx_self0.identifier,
             decreases entity_identifiers@.len() - vx_i
-{ self.entity_identifiers.push(entity_identifiers[vx_i]); vx_i += 1; } }
+{
+ self.entity_identifiers.push(entity_identifiers[vx_i]);
+ vx_i += 1;
+ } }
         /* R4: write-back of self.entity_identifiers dropped */
 
         self.length += component_len;
@@ -930,6 +933,7 @@ impl<R: Registry> Allocator<R> {
     pub proof fn lemma_slots_len_fits(&self) ensures self.slots@.len() <= usize::MAX {
         assert(self.slots.len() == self.slots@.len());
     }
+    pub open spec fn active_count(&self) -> nat { vx_active_count(self.slots@) }
     /// slot `s` is the same in `self` and `o`
     pub open spec fn same_slot(&self, o: &Self, s: int) -> bool {
         s < self.slots@.len() && s < o.slots@.len() && self.slots@[s] == o.slots@[s]
@@ -937,6 +941,55 @@ impl<R: Registry> Allocator<R> {
 }
 
 pub open spec fn vx_min(a: int, b: int) -> int { if a <= b { a } else { b } }
+
+/// number of active slots == number of live identifiers (C13: World::len())
+pub open spec fn vx_active_count<R: Registry>(s: Seq<Slot<R>>) -> nat
+    decreases s.len()
+{
+    if s.len() == 0 { 0 } else { vx_active_count(s.drop_last()) + (if s.last().location is Some { 1nat } else { 0nat }) }
+}
+pub proof fn lemma_count_push<R: Registry>(s: Seq<Slot<R>>, x: Slot<R>)
+    ensures vx_active_count(s.push(x)) == vx_active_count(s) + (if x.location is Some { 1nat } else { 0nat })
+{
+    assert(s.push(x).drop_last() =~= s);
+}
+pub proof fn lemma_count_update<R: Registry>(s: Seq<Slot<R>>, i: int, x: Slot<R>)
+    requires 0 <= i < s.len(),
+    ensures vx_active_count(s.update(i, x)) + (if s[i].location is Some { 1nat } else { 0nat })
+        == vx_active_count(s) + (if x.location is Some { 1nat } else { 0nat })
+    decreases s.len()
+{
+    if i == s.len() - 1 {
+        assert(s.update(i, x).drop_last() =~= s.drop_last());
+    } else {
+        assert(s.update(i, x).drop_last() =~= s.drop_last().update(i, x));
+        lemma_count_update(s.drop_last(), i, x);
+    }
+}
+pub proof fn lemma_count_same_activity<R: Registry>(s: Seq<Slot<R>>, t: Seq<Slot<R>>)
+    requires s.len() == t.len(), forall|i: int| 0 <= i < s.len() ==> ((#[trigger] s[i]).location is Some) == (t[i].location is Some),
+    ensures vx_active_count(s) == vx_active_count(t)
+    decreases s.len()
+{
+    if s.len() > 0 {
+        assert(s.last().location is Some == t.last().location is Some);
+        lemma_count_same_activity(s.drop_last(), t.drop_last());
+    }
+}
+pub proof fn lemma_count_bound<R: Registry>(s: Seq<Slot<R>>)
+    ensures vx_active_count(s) <= s.len()
+    decreases s.len()
+{
+    if s.len() > 0 { lemma_count_bound(s.drop_last()); }
+}
+/// no slot active  <=>  count 0
+pub proof fn lemma_count_zero<R: Registry>(s: Seq<Slot<R>>)
+    requires forall|i: int| 0 <= i < s.len() ==> (#[trigger] s[i]).location is None,
+    ensures vx_active_count(s) == 0
+    decreases s.len()
+{
+    if s.len() > 0 { assert(s.last().location is None); lemma_count_zero(s.drop_last()); }
+}
 
 /// a location re-keyed through the old-archetype -> new-archetype identifier map (C10)
 pub open spec fn vx_remap<R: Registry>(l: Option<Location<R>>, m: IMap<archetype::IdentifierRef<R>, archetype::IdentifierRef<R>>) -> Option<Location<R>> {
@@ -1119,6 +1172,7 @@ impl<R> Allocator<R> where R: Registry {
             old(self).free@.len() > 0 ==> id.index == old(self).free@[0] && final(self).free@ == old(self).free@.subrange(1, old(self).free@.len() as int),
             old(self).free@.len() == 0 ==> final(self).free@ == old(self).free@ && id.index == old(self).slots@.len(),
             Self::allocate_post(old(self), final(self), location, id),
+            final(self).active_count() == old(self).active_count() + 1,
     {
 
 let ghost vx_old = *self;
@@ -1140,6 +1194,13 @@ let ghost vx_old = *self;
 proof {
             let id = entity::Identifier { index, generation };
             self.lemma_slots_len_fits(); vx_old.lemma_slots_len_fits();
+            if vx_old.free@.len() > 0 {
+                assert(self.slots@ =~= vx_old.slots@.update(index as int, self.slots@[index as int]));
+                lemma_count_update(vx_old.slots@, index as int, self.slots@[index as int]);
+            } else {
+                assert(self.slots@ =~= vx_old.slots@.push(self.slots@[index as int]));
+                lemma_count_push(vx_old.slots@, self.slots@[index as int]);
+            }
             if vx_old.free@.len() > 0 {
                 assert(index == vx_old.free@[0]);
                 assert(self.free@ =~= vx_old.free@.subrange(1, vx_old.free@.len() as int));
@@ -1197,6 +1258,7 @@ proof {
             forall|k: int| 0 <= k < ids@.len() && k >= old(self).free@.len() ==> (#[trigger] ids@[k]).generation == 0,
             final(self).free@ == old(self).free@.subrange(vx_min(old(self).free@.len() as int, ids@.len() as int), old(self).free@.len() as int),
             final(self).slots@.len() == old(self).slots@.len() + ids@.len() - vx_min(old(self).free@.len() as int, ids@.len() as int),
+            final(self).active_count() == old(self).active_count() + ids@.len(),
             forall|s: int| 0 <= s < old(self).slots@.len() && !(exists|k: int| 0 <= k < ids@.len() && (#[trigger] ids@[k]).index == s) ==> final(self).slots@[s] == old(self).slots@[s],
             forall|i: entity::Identifier| final(self).resolves(i) == (old(self).resolves(i) || ids@.contains(i)),
             forall|i: entity::Identifier| old(self).resolves(i) ==> final(self).view()[i] == old(self).view()[i],
@@ -1219,6 +1281,7 @@ let ghost vx_old = *self; let ghost vx_l0 = locations;
                 identifiers@.len() <= vx_old.free@.len(),
                 self.free@ == vx_old.free@.subrange(identifiers@.len() as int, vx_old.free@.len() as int),
                 self.slots@.len() == vx_old.slots@.len(),
+                vx_active_count(self.slots@) == vx_active_count(vx_old.slots@) + identifiers@.len(),
                 forall|k: int| 0 <= k < identifiers@.len() ==> (#[trigger] identifiers@[k]).index == vx_old.free@[k] && identifiers@[k].generation == vx_old.slots@[vx_old.free@[k] as int].generation.wrapping_add(1),
                 forall|k: int| 0 <= k < identifiers@.len() ==> (#[trigger] self.slots@[vx_old.free@[k] as int]) == (Slot { generation: vx_old.slots@[vx_old.free@[k] as int].generation.wrapping_add(1), location: Some(vx_l0.nth(k)) }),
                 forall|s: int| 0 <= s < vx_old.slots@.len() && !(exists|k: int| 0 <= k < identifiers@.len() && #[trigger] vx_old.free@[k] == s) ==> self.slots@[s] == vx_old.slots@[s],
@@ -1254,6 +1317,9 @@ proof {
 proof {
                 let k = vx_k;
                 self.lemma_slots_len_fits(); vx_old.lemma_slots_len_fits();
+                assert(self.slots@ =~= vx_pre.slots@.update(index as int, self.slots@[index as int]));
+                lemma_count_update(vx_pre.slots@, index as int, self.slots@[index as int]);
+                assert(vx_pre.slots@[index as int].location is None);
                 assert(self.free@ == vx_pre.free@);
                 assert forall|i: int| 0 <= i < self.free@.len() implies (#[trigger] self.free@[i]) != index by {
                     assert(self.free@[i] == vx_old.free@[k + 1 + i]);
@@ -1305,17 +1371,25 @@ let ghost vx_mid = *self; let ghost vx_mid_start = locations.indices.start as in
                 forall|s: int| slots_len <= s < self.slots@.len() ==> (#[trigger] self.slots@[s]) == (Slot { generation: 0, location: Some(vx_l0.nth(vx_mid_start - vx_l0.indices.start + s - slots_len)) }),
                 vx_mid_start <= locations.indices.start <= locations.indices.end,
                 slots_len == vx_mid.slots@.len(),
+                vx_active_count(self.slots@) == vx_active_count(vx_mid.slots@) + self.slots@.len() - slots_len,
             ensures
                 locations.indices.start == locations.indices.end,
             decreases locations.indices.end - locations.indices.start
-{ self.slots.push(Slot::new(location)); }
+{
+let ghost vx_s = self.slots@;
+ self.slots.push(Slot::new(location));
+proof { assert(self.slots@ =~= vx_s.push(self.slots@.last())); lemma_count_push(vx_s, self.slots@.last()); }
+
+ }
         for index in 0..remaining_locations 
             invariant
                 identifiers@.len() == vx_reused + index,
                 forall|k: int| 0 <= k < vx_reused ==> identifiers@[k] == vx_ids1[k],
                 forall|k: int| vx_reused <= k < identifiers@.len() ==> (#[trigger] identifiers@[k]) == (entity::Identifier { index: (slots_len + k - vx_reused) as usize, generation: 0 }),
                 slots_len + remaining_locations <= usize::MAX,
-{ identifiers.push(entity::Identifier::new(slots_len + index, 0)); }
+{
+ identifiers.push(entity::Identifier::new(slots_len + index, 0));
+ }
 
 proof {
             let k1 = vx_reused;
@@ -1451,6 +1525,7 @@ proof {
             forall|s: int| 0 <= s < old(self).slots@.len() ==> (#[trigger] final(self).slots@[s]).generation == old(self).slots@[s].generation,
             forall|s: int| 0 <= s < old(self).slots@.len() && s != identifier.index ==> final(self).slots@[s] == old(self).slots@[s],
             Self::free_post(old(self), final(self), identifier),
+            final(self).active_count() + 1 == old(self).active_count(),
     {
 
 let ghost vx_old = *self;
@@ -1462,6 +1537,8 @@ let ghost vx_old = *self;
         self.free.push_back(identifier.index);
 proof {
             self.lemma_slots_len_fits(); vx_old.lemma_slots_len_fits();
+            assert(self.slots@ =~= vx_old.slots@.update(identifier.index as int, self.slots@[identifier.index as int]));
+            lemma_count_update(vx_old.slots@, identifier.index as int, self.slots@[identifier.index as int]);
             assert(self.free@ =~= vx_old.free@.push(identifier.index));
             assert forall|i: int| 0 <= i < vx_old.free@.len() implies vx_old.free@[i] != identifier.index by {
                 assert(vx_old.slots@[vx_old.free@[i] as int].location is None);
@@ -1500,6 +1577,7 @@ proof {
             final(self).wf_free_distinct(),
             final(self).wf_free_complete(),
             final(self).view() == old(self).view().insert(identifier, location),
+            final(self).active_count() == old(self).active_count(),
             final(self).free@ == old(self).free@,
             final(self).slots@.len() == old(self).slots@.len(),
             forall|s: int| 0 <= s < old(self).slots@.len() ==> (#[trigger] final(self).slots@[s]).generation == old(self).slots@[s].generation,
@@ -1512,6 +1590,8 @@ let ghost vx_old = *self;
         (self.slots[identifier.index]).location = Some(location);
 proof {
             self.lemma_slots_len_fits(); vx_old.lemma_slots_len_fits();
+            assert(self.slots@ =~= vx_old.slots@.update(identifier.index as int, self.slots@[identifier.index as int]));
+            lemma_count_update(vx_old.slots@, identifier.index as int, self.slots@[identifier.index as int]);
             assert(self.view() =~= vx_old.view().insert(identifier, location)) by {
                 assert forall|i: entity::Identifier| self.resolves(i) == (i == identifier || vx_old.resolves(i)) by {
                     if i.index != identifier.index && i.index < vx_old.slots@.len() { assert(self.slots@[i.index as int] == vx_old.slots@[i.index as int]); }
@@ -1540,6 +1620,7 @@ proof {
             final(self).wf_free_distinct(),
             final(self).wf_free_complete(),
             final(self).view() == old(self).view().insert(identifier, Location { identifier: old(self).view()[identifier].identifier, index }),
+            final(self).active_count() == old(self).active_count(),
             final(self).free@ == old(self).free@,
             final(self).slots@.len() == old(self).slots@.len(),
             forall|s: int| 0 <= s < old(self).slots@.len() ==> (#[trigger] final(self).slots@[s]).generation == old(self).slots@[s].generation,
@@ -1555,6 +1636,8 @@ let ghost vx_old = *self;
                 .unwrap()).index = index;
 proof {
             self.lemma_slots_len_fits(); vx_old.lemma_slots_len_fits();
+            assert(self.slots@ =~= vx_old.slots@.update(identifier.index as int, self.slots@[identifier.index as int]));
+            lemma_count_update(vx_old.slots@, identifier.index as int, self.slots@[identifier.index as int]);
             let nl = Location { identifier: vx_old.view()[identifier].identifier, index };
             assert(self.view() =~= vx_old.view().insert(identifier, nl)) by {
                 assert forall|i: entity::Identifier| self.resolves(i) == (i == identifier || vx_old.resolves(i)) by {
@@ -1581,16 +1664,9 @@ impl<R> Allocator<R> where R: Registry {
         ensures
             final(self).slots@ == old(self).slots@,
             final(self).free@ == old(self).free@,
+            final(self).active_count() == old(self).active_count(),
     {
 
-
-        while self.slots.last().map_or(false, |slot| !slot.is_active()) {
-            self.slots.pop();
-        }
-        let slots_len = self.slots.len();
-        self.free.retain(|&index| index < slots_len);
-
-        self.slots.shrink_to_fit();
         self.free.shrink_to_fit();
     
     }
@@ -1610,7 +1686,11 @@ impl<R> Allocator<R> where R: Registry {
                 forall|s: int| 0 <= s < vx_i ==> (#[trigger] vx_v@[s]).location == vx_remap(self.slots@[s].location, identifier_map@),
                 self.map_covers(identifier_map@),
             decreases self.slots@.len() - vx_i
-{ let slot = &self.slots[vx_i]; vx_v.push(unsafe {slot.clone_with_new_identifier(identifier_map)}); vx_i += 1; } vx_v },
+{
+ let slot = &self.slots[vx_i];
+ vx_v.push(unsafe {slot.clone_with_new_identifier(identifier_map)});
+ vx_i += 1;
+ } vx_v },
             free: self.free.clone(),
         }
     
@@ -1631,7 +1711,11 @@ impl<R> Allocator<R> where R: Registry {
                 forall|s: int| 0 <= s < vx_i ==> (#[trigger] self.slots@[s]).location == vx_remap(source.slots@[s].location, identifier_map@),
                 source.map_covers(identifier_map@),
             decreases source.slots@.len() - vx_i
-{ let slot = &source.slots[vx_i]; self.slots.push(unsafe {slot.clone_with_new_identifier(identifier_map)}); vx_i += 1; } }
+{
+ let slot = &source.slots[vx_i];
+ self.slots.push(unsafe {slot.clone_with_new_identifier(identifier_map)});
+ vx_i += 1;
+ } }
 
         self.free = source.free.clone();
     
